@@ -294,6 +294,23 @@ def run(ctx):
         ctx.ob("C02.4", "%s|param-%d-not-modified" % (FM.nr0.id, i), "parameter %d (%s) of new_request is not modified in place before it is stored" % (i, short(ty)), not muts, "%s:%d" % (FM.nr0.file, FM.nr0.line),
                None if not muts else str(muts[:3]))
     ctx.floor("C02.4 data parameters of new_request", n_par, 1)
+    # ... and stay as they were for the whole life of the Request: nothing writes the fields that describe the request (anything but the
+    # reader / writer slots and private flags) after new_request has built it
+    desc_types = (METHOD, "std::string::String", HV, "std::vec::Vec<common::Header>", "std::option::Option<std::net::SocketAddr>", "std::option::Option<usize>")
+    dpaths = []
+    for ty_ in desc_types:
+        dpaths += shared.find_slot_paths(facts, REQ, "^" + re.escape(ty_) + "$")
+    n_desc = 0
+    for path_ in dpaths:
+        owner_, fld_ = shared.owner_of_path(facts, REQ, path_)
+        for g_, bb_, kind_, x_ in facts.field_writes(owner_, fld_):
+            if kind_ in ("construct", "drop"):
+                continue
+            n_desc += 1
+            ctx.ob("C02.4", "field-write|%s|%s" % (".".join(path_), g_.id), "what the Request reports about the request (method, target, version, headers, peer address, declared length) is never changed after it was built",
+                   False, g_.loc(bb_), "%s of %s" % (kind_, ".".join(path_)))
+    ctx.ob("C02.4", "%s|descriptive-fields-immutable" % REQ, "the fields describing the request are written only when the Request is built", n_desc == 0, facts.adt(REQ)["file"], nontrivial=True)
+    ctx.floor("C02.4 descriptive fields of Request", len(dpaths), 5)
     # accessors return the stored fields
     import request_rules as RR
     RM = RR.rmodel(facts)
